@@ -297,6 +297,13 @@ func (w *c19World) genServerCases(s *c19Sess, o c19GenOpts, emit func(c c19Case,
 				}
 				kind := "swap/" + nb.k + "/" + strings.Join(names, "+")
 				own(kind, nb.v, step, c19Build(mut))
+				// ... and the same mixture with a parameter ADDED that a client never sends: the challenge the server
+				// once issued to the neighbour's session (the text the neighbour's signature was made over), named as if
+				// the client could tell the server which challenge to verify against
+				if _, has := c19Get(ps, "challenge-client"); !has && ns.cc != "" {
+					own(kind+"+add-challenge-client", nb.v, step, c19Build(append(append([]c19Param{}, mut...), c19Param{"challenge-client", ns.cc})))
+					own(kind+"+add-challenge-client-first", nb.v, step, c19Build(append([]c19Param{{"challenge-client", ns.cc}}, mut...)))
+				}
 				// the same mixture presented where the neighbour's session was valid
 				put(kind+"@nb", nb.v, step, ns.srv, c19Hosts[ns.host], c19Build(mut))
 			}
@@ -304,6 +311,13 @@ func (w *c19World) genServerCases(s *c19Sess, o c19GenOpts, emit func(c c19Case,
 				v, _ := c19Get(nps, k)
 				own("dup-foreign-last/"+nb.k+"/"+k, nb.v, step, c19Build(append(append([]c19Param{}, ps...), c19Param{k, v})))
 				own("dup-foreign-first/"+nb.k+"/"+k, nb.v, step, c19Build(append([]c19Param{{k, v}}, ps...)))
+			}
+			// parameters a client never sends, added to the otherwise honest header with the neighbour's / a made-up value
+			for _, ad := range []c19Param{{"challenge-client", ns.cc}, {"challenge-client", s.cc}, {"hostname", otherHost}, {"hostname", c19Hosts[ns.host]}, {"client-public-key", c19B64(ns.client.pubBytes)}, {"server-public-key", c19B64(w.servers[1-s.srv].key.pubBytes)}} {
+				if _, has := c19Get(ps, ad.k); has || ad.v == "" {
+					continue
+				}
+				own("add/"+nb.k+"/"+ad.k, nb.v, step, c19Build(append(append([]c19Param{}, ps...), ad)))
 			}
 			// two Authorization header lines
 			own("two-headers/own-first/"+nb.k, nb.v, step, H, ns.stepHdr(step))
